@@ -46,7 +46,8 @@ pub fn judge(b: &Beh, obs: Obs) -> Verdict {
         }
         if let Some(w) = stage(exp, &ob) {
             let d = v.obs.detail.clone();
-            fail(&mut v, format!("{}: {} ({})", name, w, d));
+            let note = if b.note.is_empty() { String::new() } else { format!(" [{}]", b.note) };
+            fail(&mut v, format!("{}: {} ({}){}", name, w, d, note));
             return v;
         }
         if ob != "ok" {
